@@ -101,6 +101,17 @@ def _plain_value(v, depth=0):
 class Model:
     """Base class for model objects whose attributes/methods may be used."""
 
+    def __getattr__(self, name):
+        # reached from library code the evaluator does not interpret (`operator.methodcaller("_drive_port", ...)(model)`): a private
+        # method the repository's class defines although the reference model lacks it - same answer as in `ev_Attribute`
+        if name.startswith("_") and not name.startswith("__") and not name.startswith(("_cg_", "_uc_", "_ri_", "_cud_")):
+            fb = getattr(type(self), "_pkg_fallback", None)
+            if fb is not None and "_repo_class" in dir(type(self)):
+                m = fb.bound_repo_method(self, name)
+                if m is not None:
+                    return m
+        raise AttributeError(f"'{type(self).__name__}' object has no attribute '{name}'")
+
 
 class IdModel:
     """id(): unique among the objects alive at the same time - and nothing more.  Deterministic and adversarial: an object keeps its
@@ -418,6 +429,9 @@ class MiniEval:
             obj, name, value = (self.ev(a) for a in n.args)
             if isinstance(obj, Model) and getattr(type(obj), "_allow_private", False) and isinstance(name, str) and type(obj).__name__ in ("UserClass", "UserInstance", "EnumClass"):
                 setattr(obj, name, value)  # classes / objects the evaluated code defines itself
+                return None
+            if type(obj).__name__ == "ClassUnderDecoration" and isinstance(name, str):
+                obj._cud_installed[name] = value  # a class decorator of the package installs a method / attribute on a repository class
                 return None
             raise Unsupported(f"setattr on {type(obj).__name__}")
         if isinstance(n.func, ast.Name) and n.func.id == "vars" and "vars" not in self.env and len(n.args) == 1 and not n.keywords:
@@ -1478,7 +1492,7 @@ class BlockInterp:
             if st.exc is not None:
                 e = st.exc.func if isinstance(st.exc, ast.Call) else st.exc
                 kind = norm(e).split(".")[-1]
-                if not (kind in _EXC_PARENTS or kind in USER_EXC_PARENT or kind[:1].isupper()):
+                if not (isinstance(e, (ast.Name, ast.Attribute)) and (kind in _EXC_PARENTS or kind in USER_EXC_PARENT or kind[:1].isupper())):
                     # not the name of an exception class: an expression that yields the exception (a factory classmethod,
                     # a variable holding an instance)
                     from .userclass import UserClass, UserInstance
